@@ -419,7 +419,7 @@ class Engine:
 
     # ---------- one query ----------
     def run_one(self, q):
-        wd = os.path.join(self.scratch, re.sub(r"[^A-Za-z0-9_.-]", "_", q.name))
+        wd = os.path.join(self.scratch, re.sub(r"[^A-Za-z0-9_.-]", "_", q.name)[:120] + "." + hashlib.sha1(q.name.encode()).hexdigest()[:8])
         os.makedirs(wd, exist_ok=True)
         rec = {"query": q.name, "desc": q.descriptor(), "verdict": "undecided", "reason": "", "secs": 0.0,
                "stats": {}, "rss_mb": 0, "witness": None, "replay": None, "group": q.group}
